@@ -35,6 +35,8 @@ Inductive op :=
 | DDesc (d : desc)            (* a loop skeleton read off the source: does it satisfy the hypothesis of C08_gen_run_normalised? *)
 | QOrth (k : nat) (M : list Q) (tol : Q)
 | QTucker (shape ranks : list nat) (X core : list Q) (fs : list (list Q)) (tol_orth tol_proj : Q)
+| CQOrth (k : nat) (M : list CQ) (tol : Q)                       (* complex data: M^H M = I *)
+| CQTucker (shape ranks : list nat) (X core : list CQ) (fs : list (list CQ)) (tol_orth tol_proj : Q)   (* core = X x_k U_k^H *)
 | QCpNorm (R : nat) (w : option (list Q)) (fs scales : list (list Q)) (tol : Q) (wout : list Q) (fout : list (list Q)).
 
 Definition is_frac (s : rspec) : bool := match s with RFrac _ => true | _ => false end.
@@ -84,6 +86,8 @@ Definition run (o : op) : res (list (list nat)) :=
   | DDesc d => Ok [[if desc_ok d then 1 else 0]]
   | QOrth k M tol => Ok [[if orth_ok k M tol then 1 else 0]]
   | QTucker shape ranks X core fs t1 t2 => Ok [[if tucker_ok shape ranks X core fs t1 t2 then 1 else 0]]
+  | CQOrth k M tol => Ok [[if corth_ok k M tol then 1 else 0]]
+  | CQTucker shape ranks X core fs t1 t2 => Ok [[if ctucker_ok shape ranks X core fs t1 t2 then 1 else 0]]
   | QCpNorm R w fs scales tol wout fout =>
       match cp_normalize_q R w fs scales tol with
       | Some (wm, fm) =>
